@@ -30,6 +30,7 @@ type amoCfg struct {
 	faultAt           int
 	goroutines, calls int
 	multi             bool
+	bigBatch          bool // DoMulti of 8 long writes through a 512-byte write buffer: the batch reaches the wire in several flushes
 }
 
 func runAtMostOnce(c *Ctx) {
@@ -38,6 +39,13 @@ func runAtMostOnce(c *Ctx) {
 	for _, st := range []time.Duration{0, 250 * time.Millisecond, 1400 * time.Millisecond} {
 		for _, multi := range []bool{false, true} {
 			cfgs = append(cfgs, amoCfg{lifetime: 150 * time.Millisecond, stallAt: 2, stall: st, goroutines: 3, calls: 6, multi: multi})
+		}
+	}
+	// a batch that is only PARTLY on the wire (several flushes) when the lifetime expires and the server stalls after
+	// executing its first commands: what was executed must not be re-sent
+	for _, st := range []time.Duration{250 * time.Millisecond, 1400 * time.Millisecond} {
+		for _, at := range []int{1, 2, 4} {
+			cfgs = append(cfgs, amoCfg{lifetime: 120 * time.Millisecond, stallAt: at, stall: st, goroutines: 1, calls: 3, multi: true, bigBatch: true})
 		}
 	}
 	// connection drops relative to the request
@@ -68,6 +76,7 @@ func amoEpisode(c *Ctx, n int, cfg amoCfg) {
 	client, err := rueidis.NewClient(rueidis.ClientOption{
 		InitAddress: []string{"tagsrv:6379"}, DialCtxFn: srv.Dial, ForceSingleClient: true, DisableCache: true,
 		ConnLifetime: cfg.lifetime, PipelineMultiplex: -1, ConnWriteTimeout: 3 * time.Second, AlwaysPipelining: cfg.multi,
+		WriteBufferEachConn: map[bool]int{true: 512, false: 0}[cfg.bigBatch], // the handshake (sync, net.Pipe) must fit one flush
 	})
 	if err != nil {
 		c.Fail("amo:newclient", fmt.Sprint(cfg), err.Error())
@@ -88,7 +97,22 @@ func amoEpisode(c *Ctx, n int, cfg amoCfg) {
 			defer wg.Done()
 			for k := 0; k < cfg.calls; k++ {
 				ctx, cancel := context.WithTimeout(context.Background(), 4*time.Second)
-				if cfg.multi && k%2 == 1 {
+				if cfg.bigBatch {
+					var cs []rueidis.Completed
+					var ts []string
+					for i := 0; i < 8; i++ {
+						t := fmt.Sprintf("k%d_%dw%d_%s", g, k, i, strings.Repeat("p", 180)) // ~2 commands per flush
+						ts = append(ts, t)
+						cs = append(cs, client.B().Incr().Key(t).Build())
+					}
+					rs := client.DoMulti(ctx, cs...)
+					mu.Lock()
+					for i, t := range ts {
+						e := rs[i].Error()
+						recs = append(recs, rec{t, true, e == nil, fmt.Sprint(e)})
+					}
+					mu.Unlock()
+				} else if cfg.multi && k%2 == 1 {
 					t1, t2, t3 := fmt.Sprintf("k%d_%dw1", g, k), fmt.Sprintf("k%d_%dr", g, k), fmt.Sprintf("k%d_%dw2", g, k)
 					rs := client.DoMulti(ctx, client.B().Incr().Key(t1).Build(), client.B().Get().Key(t2).Build(), client.B().Set().Key(t3).Value("v").Build())
 					mu.Lock()
